@@ -106,6 +106,32 @@ def run(ctx):
     ]
 
 
+def selftest(ctx):
+    """Corrupt one recorded observation / drop one event: TLC must reject; negative controls must be refuted."""
+    build_harness()
+    tr = ctx.work / "st-map.ndjson"
+    vh(["c20-map-trace", "seed=7", "n=14", "len=60", f"out={tr}"])
+    def flip(e):
+        if "obs" not in e: return None
+        e["obs"][0] = 9 if e["obs"][0] != 9 else 8
+        return e
+    selftest_traces(ctx, "map-obs-corrupted", "Trace_ScopedMap", "Trace_ScopedMap.cfg", tr, flip)
+    selftest_traces(ctx, "map-event-dropped", "Trace_ScopedMap", "Trace_ScopedMap.cfg", tr,
+                    lambda e: "drop" if e.get("ev") in ("local", "global") and e["obs"][e["key"] - 1] == e["v"] and not e["res"] else None)
+    ev = ctx.work / "st-kmp.ndjson"
+    vh(["c20-kmp", "sigma=2", "maxp=3", "tlen=6", f"out={ev}"])
+    selftest_calls(ctx, "kmp-result-corrupted", "Trace_Kmp", "Trace_Kmp.cfg", ev,
+                   lambda e: dict(e, ends=e["ends"][:-1]) if e.get("ends") else None)
+    tg = ctx.work / "st-tags.ndjson"
+    vh(["c20-tags", "threads=4", "per=10", "reps=12", f"out={tg}"])
+    selftest_traces(ctx, "tags-duplicate", "Trace_Tags", "Trace_Tags.cfg", tg,
+                    lambda e: dict(e, val=1 if e["val"] != 1 else 2) if e.get("ev") == "tag" else None)
+    for bug in ["PurgeOnlyOuter", "SaveAlways", "IterAllVisible"]:
+        tlc_expect_refuted("MC_ScopedMap", f"NEG_ScopedMap_{bug}.cfg", bug, workers=4)
+    tlc_expect_refuted("Tags", "NEG_Tags_NoLock.cfg", "no lock", workers=2)
+    ctx.cov["rule"] = "selftest: corrupted recordings must be rejected, originals accepted, spec mutants refuted"
+
+
 def replay(path):
     r = json.load(open(path))
     print(json.dumps(r, indent=1)[:4000])
